@@ -170,10 +170,11 @@ def _structure_job(args):
             herm_measure(rec, "integer-dense", {"structure": "integer Hermitian", "A": Hh.tolist()}, Hh, spec(Hh))
             if n >= 3:
                 # first row / column (off the diagonal) so small that the squares underflow
-                Hu = Hh.copy()
-                Hu[1:, 0] *= 2.0 ** -530
-                Hu[0, 1:] *= 2.0 ** -530
-                herm_measure(rec, "underflow-subcolumn", {"structure": "integer Hermitian, first off-diagonal row/column scaled by 2^-530", "n": n}, Hu, spec(Hu))
+                for e_ in (-530, -1072):           # squares underflow; entries are denormal
+                    Hu = Hh.copy()
+                    Hu[1:, 0] *= 2.0 ** e_
+                    Hu[0, 1:] *= 2.0 ** e_
+                    herm_measure(rec, "underflow-subcolumn", {"structure": "integer Hermitian, first off-diagonal row/column scaled by 2^%d" % e_, "n": n}, Hu, spec(Hu))
             v = rng.standard_normal((n, 1, 4))
             R1 = omul(v, oherm(v))
             herm_measure(rec, "low-rank", {"structure": "rank one", "v": v.tolist()}, R1, spec(R1))
